@@ -15,7 +15,7 @@ from . import lexsx, c03 as c03mod, c11 as c11mod
 sys.path.insert(0, common.VERIF)
 from ref import refscan
 
-COMMENTS = ['/*c*/', '//c\n', '//c\r\n', '//c\r', '/*c\nd*/', '/* x */', '// y \n']
+COMMENTS = ['/*c*/', '//c\n', '//c\r\n', '//c\r', '/*c\nd*/', '/* x */', '// y \n', '/***/', '/* ** x **/']
 K_RESTRICTED = 'C13: a comment attached to the operand of return/throw/break/continue is printed on its own line, splitting the restricted production'
 K_NOT_RECAPTURED = 'C13: a captured comment is printed at a place where capture does not attach it again when the output is re-parsed'
 
